@@ -154,6 +154,10 @@ func TestC19(t *testing.T) {
 			// a failed compile that could not be reverted has left its
 			// marker and next/ behind; then a good commit arrives
 			{"good-run-badnoemail-run-good", []Action{good, run, {Op: "commit", Bad: true, NoEmail: true}, run, good}},
+			// revert path: compile fails, revert, compile again
+			// (the second good commit makes the reverted head differ
+			// from what p1 was compiled from)
+			{"good-run-good-bad", []Action{good, run, good, {Op: "commit", Bad: true}}},
 		}
 		step := 5
 		if props.Thorough() {
@@ -161,10 +165,6 @@ func TestC19(t *testing.T) {
 			fixedL = append(fixedL,
 				// no previous policy
 				fixed{"good-good", []Action{good, good}},
-				// revert path: compile fails, revert, compile again
-				// (the second good commit makes the reverted head differ
-				// from what p1 was compiled from)
-				fixed{"good-run-good-bad", []Action{good, run, good, {Op: "commit", Bad: true}}},
 				// failing compile without revert
 				fixed{"good-run-badnoemail", []Action{good, run, {Op: "commit", Bad: true, NoEmail: true}}},
 			)
@@ -184,10 +184,15 @@ func TestC19(t *testing.T) {
 			ev.Note("enumerate:"+f.name, fmt.Sprintf("%d kill positions; enumerated: every %d. and all of handle_success", len(tr), step))
 			idx := 0
 			for k := 1; k <= len(tr); k++ {
-				// Quick: every 5th position, and every position inside
-				// handle_success (commit, push, promotion).
+				// Quick: every 5th position, every position inside
+				// handle_success (commit, push, promotion), every position
+				// of prepare_next when a failed marker exists, and every
+				// position of try_revert and of the main loop on the
+				// revert path.
 				if k%step != 0 && !strings.HasPrefix(tr[k-1], "[handle_success]") &&
-					!(f.name == "good-run-badnoemail-run-good" && strings.HasPrefix(tr[k-1], "[prepare_next]")) {
+					!(f.name == "good-run-badnoemail-run-good" && strings.HasPrefix(tr[k-1], "[prepare_next]")) &&
+					!(f.name == "good-run-good-bad" && (strings.HasPrefix(tr[k-1], "[try_revert]") || strings.HasPrefix(tr[k-1], "[main]") ||
+						strings.HasPrefix(tr[k-1], "[prepare_next] cd $POLICYDB") || strings.HasPrefix(tr[k-1], "[prepare_next] rm "))) {
 					continue
 				}
 				mine := idx%nshards == shard
